@@ -1,6 +1,7 @@
 import ProbLogModel.Core.Proto
 import ProbLogModel.Printer
 import ProbLogModel.Lexer
+import ProbLogModel.PrintTokens
 open ProbLogModel.Proto ProbLogModel.Syntax ProbLogModel.Parser
 
 def opOfSExp : SExp → Option (Option OpDef)
@@ -65,6 +66,24 @@ def step (_ : Unit) (line : String) : Unit × String :=
       | .ok [u] => ((), (if u == t then "same " else "diff ") ++ u.dump)
       | .ok us => ((), "count " ++ toString us.length)
       | .error e => ((), showErr e)
+    | none => ((), "bad-term")
+  | some [.atom "cls", t] =>
+    -- membership in the class of C17_roundtrip_partial, and: is `s.toks` the token list of the printed text?
+    match Tm.ofSExp t with
+    | some t =>
+      match ProbLogModel.PrintTokens.S.ofTm t with
+      | none => ((), "notin")
+      | some s =>
+        if !(s.tm == t) || !s.valid then ((), "notin")
+        else
+          match ProbLogModel.Lexer.tokenize (ProbLogModel.Printer.reprTop t ++ ".") with
+          | .ok ts =>
+            if ts == s.toks ++ [ProbLogModel.PrintTokens.tEnd] then
+              match collapse s.toks with
+              | .ok u => ((), if u == t then "in same" else "in parse-diff")
+              | .error e => ((), "in " ++ showErr e)
+            else ((), "in toks-diff")
+          | .error e => ((), "in lex-" ++ showErr e)
     | none => ((), "bad-term")
   | some [.atom "lex", .atom s] =>
     match ProbLogModel.Lexer.tokenize (unquote s) with
